@@ -253,6 +253,17 @@ func init() {
 					g.emit("os", strconv.Itoa([]int{1, 2, 16}[g.n%3]), ps, fs)
 				}
 			}
+			// files of at most one line end before their forwarder may have started: the schedules in
+			// which shutdown overtakes a line live here, so these tiny runs are repeated
+			reps := 25
+			if g.thorough() {
+				reps = 250
+			}
+			for rep := 0; rep < reps; rep++ {
+				for k, fs := range []string{"1/0", "0/1", "0/0", "1/0,0/0", "0/1,1/0"} {
+					g.emit("os", strconv.Itoa([]int{1, 2, 16}[(rep+k)%3]), []string{"w", "w,g"}[rep%2], fs)
+				}
+			}
 			n := 30
 			if g.thorough() {
 				n = 600
